@@ -47,6 +47,7 @@ func TestVerifReplay(t *testing.T) {
 			n++
 			calls := 0
 			var seen [][]string // names of the extra resources supplied at each call
+			var seenDesired [][]string
 			wrapped := FunctionRunnerFn(func(_ context.Context, _ string, req *fnv1.RunFunctionRequest) (*fnv1.RunFunctionResponse, error) {
 				var got []string
 				for k := range req.GetExtraResources() {
@@ -58,7 +59,15 @@ func TestVerifReplay(t *testing.T) {
 				if i >= len(sc) {
 					i = len(sc) - 1
 				}
-				rsp := &fnv1.RunFunctionResponse{Requirements: sets[sc[i]]}
+				// what this round was handed as desired state: the caller's (one resource, "given")
+				var des []string
+				for k := range req.GetDesired().GetResources() {
+					des = append(des, k)
+				}
+				sort.Strings(des)
+				seenDesired = append(seenDesired, des)
+				// the function returns a desired state of its own making
+				rsp := &fnv1.RunFunctionResponse{Requirements: sets[sc[i]], Desired: &fnv1.State{Resources: map[string]*fnv1.Resource{"given": {}, fmt.Sprintf("added-in-round-%d", calls): {}}}}
 				if calls == fatalAt {
 					rsp.Results = []*fnv1.Result{{Severity: fnv1.Severity_SEVERITY_FATAL, Message: "fatal"}}
 				}
@@ -68,7 +77,7 @@ func TestVerifReplay(t *testing.T) {
 			fetcher := ExtraResourcesFetcherFn(func(_ context.Context, _ *fnv1.ResourceSelector) (*fnv1.Resources, error) {
 				return &fnv1.Resources{}, nil
 			})
-			rsp, err := NewFetchingFunctionRunner(wrapped, fetcher).RunFunction(context.Background(), "fn", &fnv1.RunFunctionRequest{})
+			rsp, err := NewFetchingFunctionRunner(wrapped, fetcher).RunFunction(context.Background(), "fn", &fnv1.RunFunctionRequest{Desired: &fnv1.State{Resources: map[string]*fnv1.Resource{"given": {}}}})
 			at := func(i int) string {
 				if i >= len(sc) {
 					i = len(sc) - 1
@@ -94,6 +103,11 @@ func TestVerifReplay(t *testing.T) {
 				}
 				if rsp == nil {
 					t.Fatalf("VERIF-REPRODUCED: %s: success without a response", desc)
+				}
+			}
+			for i, d := range seenDesired {
+				if fmt.Sprint(d) != "[given]" {
+					t.Fatalf("VERIF-REPRODUCED: %s: round %d was handed the desired state %v, the caller supplied [given] (the step's own output of an earlier round must not come back as its input)", desc, i, d)
 				}
 			}
 			for i := 1; i < len(seen); i++ {
